@@ -176,14 +176,17 @@ def run_c16(tier, seed, t0):
                     d = json.loads(s)
                     d["id"] = k
                     f.write(json.dumps(d, separators=(",", ":")) + "\n")
-        passes = [("f64", 0, 0, False), ("f32", 0, 0, False)] if n <= 3 else [("f64", 0, 0, False)]
+        passes = [("f64", 0, 0, False, 0), ("f32", 0, 0, False, 0)] if n <= 3 else [("f64", 0, 0, False, 0)]
+        # the same tuples with a queue that already holds one event at an end point of the other segment
+        # (same operand and contour as the segment to be divided there): what the step adds must not depend on it
+        passes += [("f64", 0, 0, False, d) for d in ((1, 2, 3, 4) if n <= 3 else (3,))]
         # axis-parallel pairs again in non-representable frames (int/d, shifted): the split points must
         # still be bit-identical to the existing end points / the clamped crossing
-        passes += [("f64", 1010, 0, True), ("f64", 1003, 5, True), ("f64", 1007, -3, True), ("f64", 1049, 11, True), ("f64", 1010, 37, True), ("f32", 1010, 2, True), ("f32", 1003, -7, True)]
-        for (ftype, frame, offset, only_axis) in passes:
-            tag = "%s-fr%d-o%d" % (ftype, frame, offset)
+        passes += [("f64", 1010, 0, True, 0), ("f64", 1003, 5, True, 0), ("f64", 1007, -3, True, 0), ("f64", 1049, 11, True, 0), ("f64", 1010, 37, True, 0), ("f32", 1010, 2, True, 0), ("f32", 1003, -7, True, 0)]
+        for (ftype, frame, offset, only_axis, decoy) in passes:
+            tag = "%s-fr%d-o%d" % (ftype, frame, offset) + ("-q%d" % decoy if decoy else "")
             recs = os.path.join(wd, "rec%d%s.ndjson" % (n, tag))
-            vlib.vh(["replay-pi", "--file", tuples, "--frame", frame, "--offset", offset] + (["--f32"] if ftype == "f32" else []) + (["--only-axis"] if only_axis else []), recs)
+            vlib.vh(["replay-pi", "--file", tuples, "--frame", frame, "--offset", offset, "--decoy", decoy] + (["--f32"] if ftype == "f32" else []) + (["--only-axis"] if only_axis else []), recs)
             cfg2 = "SPECIFICATION Spec\nINVARIANT C16_IntersectionStep\nCHECK_DEADLOCK TRUE\n"
             out2, dt2 = vlib.run_tlc_trace("TracePI.tla", cfg2, os.path.join(wd, "tr%d%s" % (n, tag)), recs, timeout=3000)
             res2 = vlib.parse_tlc(out2, {"C16_IntersectionStep"})
@@ -207,7 +210,7 @@ def run_c16(tier, seed, t0):
             tot += len(rl)
             tot_states += res["distinct"] + res2["distinct"]
             tot_trans += res["generated"] + res2["generated"]
-            per.append({"lattice": "%dx%d" % (n + 1, n + 1), "F": ftype, "frame": frame, "offset": offset, "tuples": len(rl), "failures": len(fails), "tlc_s": round(dt + dt2, 1)})
+            per.append({"lattice": "%dx%d" % (n + 1, n + 1), "F": ftype, "frame": frame, "offset": offset, "queue_decoy": decoy, "tuples": len(rl), "failures": len(fails), "tlc_s": round(dt + dt2, 1)})
             log("[C16] lattice %dx%d %s: %d argument tuples replayed through possible_intersection, judged by TLC: %d failures" % (n + 1, n + 1, tag, len(rl), len(fails)))
             os.remove(recs)
         os.remove(tuples)
